@@ -372,6 +372,44 @@ example :
      | .ok st => some (enters (st.log.take 4), (st.log.drop 4).head?)
      | _ => none) = some ([(1, 6), (0, 6)], some (Ev.occEnd 1)) := by decide
 
+/-! ### the pen as emitter: freeze..thaw regions (`tickit_pen_copy`, `copy_attr` of a colour, a colour description)
+
+The pen's change event is emitted by `changed()` — at once, or remembered while a region is frozen and delivered as one
+batched occurrence by the outermost `thaw()` — and by `tickit_pen_set_colour_attr`, at once.  The model's pen owner
+(`PenSt`, `Task.pen`, `Task.penRegion`) transcribes this; handler actions may run such operations on the owner pen
+(`Action.pen`).  All theorems above quantify over these behaviours too; the invariant `RefOk` carries, besides the
+reference accounting of open regions, that a change is remembered only inside a frozen region. -/
+
+/-- Re-applying a template the pen already satisfies (`tickit_pen_copy` with nothing to copy) is not an occurrence of the
+    change event: no handler is called, nothing is recorded, in any state the invariant allows — in particular from
+    inside a change handler that is itself being delivered the batched occurrence of an enclosing region (`thaw` clears
+    `changed` before it emits). -/
+theorem satisfied_template_is_no_occurrence (own : Owner) (beh : Behaviour) (fuel : Nat) (st st' : St) (r : Int) (t : Tmpl) (ow : Bool)
+    (h : Tickit.Bindings.Inv st) (hro : RefOk own st)
+    (hfg : loopCopiesFg st.pen t ow = false) (hbd : loopCopiesBold st.pen t ow = false)
+    (hex : exec Cfg.repaired own beh fuel (.penRegion (PenOp.copy t ow).body) st = .ok (st', r)) :
+    st'.log = st.log ∧ st'.dead = false ∧ st'.list = st.list ∧ st'.pen = st.pen := by
+  obtain ⟨a, b, c, d, _⟩ := region_nothing_to_copy own beh h hro hfg hbd hex
+  exact ⟨a, b, c, d⟩
+
+/-- A change is remembered only inside a frozen region: after any history `changed` is clear and no region is open. -/
+theorem no_change_pending_between_operations (own : Owner) (beh : Behaviour) (hb : Safe own beh) (fuel : Nat) (ops : List Op) (st : St)
+    (hops : ValidOps ops) (hnd : Op.destroy ∉ ops) (hr : Runs Cfg.repaired own beh fuel ops st) (hal : st.dead = false) :
+    st.pen.freeze = 0 → st.pen.changed = false := by
+  have := execOps_good own beh hb fuel ops St.init hops Top.init (RefOk.init own)
+  rw [hr] at this
+  exact (this.2 hnd hal).2.2.1.2
+
+/-- Not vacuous, and the scenario of the demonstration: handler 0 re-applies the satisfied template {bold} from inside
+    the batched occurrence that `tickit_pen_copy(pen, {bold}, overwrite)` delivers; each of the two handlers runs once
+    for that one change, and a second copy of the same template delivers nothing. -/
+example :
+    (match execOps Cfg.repaired penHoldingRef (fun h n => if h = 0 ∧ n = 0 then ⟨[.pen (.copy ⟨some true, none, none⟩ true)], 0⟩ else ⟨[], 0⟩) 60
+        [.bind 1 false plain 0, .bind 1 false plain 1, .pen (.copy ⟨some true, none, none⟩ true), .pen (.copy ⟨some true, none, none⟩ true)]
+        St.init with
+     | .ok st => some (st.log.countP (isEnterFire 0), st.log.countP (isEnterFire 1), st.pen.bold)
+     | _ => none) = some (1, 1, some true) := by decide
+
 /-! ### no binding is lost -/
 
 /-- After any history, the bindings the trace says are live — bound, not unbound since, not a delivered one-shot —
